@@ -4,7 +4,7 @@ Property theorems about the definitions of `GlotaranModel/C04.lean` (the ones th
 instantiated at `ℝ` (analytic statements) or at an arbitrary field (algebraic statements).
 `NormedSpace.exp (t • toMat n K) *ᵥ j` is `exp(K t) j`.
 -/
-import GlotaranProofs.Lemmas.C04Cast
+import GlotaranProofs.Lemmas.C04Multi
 import Mathlib.Tactic.IntervalCases
 import Mathlib.Tactic.NormNum
 import Mathlib.Tactic.LinearCombination
@@ -736,5 +736,340 @@ theorem decay_megacomplex_conserves (ic : InitConc ℝ) (ks : List (KDict ℝ)) 
 example : (match decayParts (⟨["s1", "s2"], [(1 : ℚ), 3], []⟩ : InitConc ℚ) [[(("s2", "s1"), 2), (("s1", "s2"), 3)]] with
     | .ok p => (p.dict.all (fun e => e.1.1 != e.1.2), p.j, table 2 (fullAt p.es))
     | .error _ => (false, [], [])) = (true, [1/4, 3/4], [[-2, 3], [2, -3]]) := by decide +kernel
+
+/-! ## the sequential megacomplex with zero rates: closed-form A-matrix, rates in eigenvalue order
+
+`DecaySequentialMegacomplex.get_a_matrix` always uses the closed form, but `calculate_matrix` /
+`retrieve_decay_associated_data` take the rates from `KMatrix.rates`, which uses the closed form only if
+`is_sequential` accepts — and that needs every rate to be non-zero.  With a zero rate (e.g. a last
+compartment that does not decay) the rates are `−eig(K)` *in LAPACK's order* while the rows of the
+A-matrix are in chain order.  The statement "for every certified eigen-decomposition the terms are
+`exp(K t) e₀`" (true for the decay and the parallel megacomplex: `decay_megacomplex_solves`,
+`par_megacomplex_solves`) is therefore **false** for the sequential megacomplex:
+`seq_megacomplex_solves_partial` (under the order hypothesis) + `seq_megacomplex_solves_counterexample`.
+On the real code LAPACK returns the eigenvalues of the triangular `Kᵀ` in diagonal order, so the order
+hypothesis holds there; the harness observes it on every sequential case. -/
+
+/-- **Sequential megacomplex, any rates** (zero ones included): its `K` is the chain
+`c₀ →(r₀) c₁ → … → c_{n−1} →(r_{n−1})` with diagonal `−r`, started in `c₀`. -/
+theorem seq_megacomplex_chain_any_rates (comps : List String) (rs : List ℝ) (hn : comps.Nodup)
+    (hl : rs.length = comps.length) (hpos : 0 < comps.length) :
+    seqParts comps rs = .ok (seqResolved comps rs)
+    ∧ IsChain comps.length (fullAt (seqResolved comps rs).es)
+    ∧ (∀ i < comps.length, fullAt (seqResolved comps rs).es i i = - rs.getD i 0)
+    ∧ (∀ i, listFn (seqResolved comps rs).j i = if i = 0 then 1 else 0) := by
+  have hdiag : ∀ i < comps.length, fullAt (seqResolved comps rs).es i i = - rs.getD i 0 := fun i hi =>
+    fullAt_colEntries_diag comps.length _ _ (fun k hk => by omega) i hi
+  refine ⟨seqParts_eq comps rs hn hl hpos, ?_, hdiag, ?_⟩
+  · intro c hc m hm
+    by_cases h1 : m = c
+    · rw [if_pos h1, h1]
+    · rw [if_neg h1, hdiag m hm, neg_neg]
+      show fullAt (colEntries comps.length (fun i => min (i + 1) (comps.length - 1)) fun i => rs.getD i 0) c m = _
+      rw [fullAt_offdiag _ (keysNodup_colEntries _ _ _) c m (Ne.symm h1), reducedAt_colEntries]
+      by_cases h2 : m + 1 = c
+      · rw [if_pos h2, if_pos ⟨hm, by omega⟩]
+      · rw [if_neg h2, if_neg]
+        intro h
+        omega
+  · intro i
+    exact isE0_listFn _ (by simp [seqResolved, isE0]) i
+
+/-- a chain whose middle compartment does not decay: still a chain, but not "sequential" for the code -/
+example : (match seqParts ["a", "b", "c"] [(2 : ℚ), 0, 1] with
+    | .ok p => (table 3 (fullAt p.es), p.j, isSequential 3 (reducedAt p.es) p.j)
+    | .error _ => ([], [], true))
+    = ([[-2, 0, 0], [2, 0, 0], [0, 0, -1]], [1, 0, 0], false) := by decide +kernel
+
+/-- **which path the rates take**: `KMatrix.rates` uses the closed form (`−diag K`) for the sequential
+megacomplex iff no rate is zero; otherwise the rates are `−eig(K)` in the order `eig` returns them -/
+theorem seq_closed_form_rates_iff {F : Type} [Field F] [DecidableEq F] (comps : List String) (rs : List F) :
+    isSequential comps.length (reducedAt (seqResolved comps rs).es) (seqResolved comps rs).j = true
+      ↔ ∀ i < comps.length, rs.getD i 0 ≠ 0 := by
+  constructor
+  · intro h i hi
+    have := ((isSequential_iff _ _ _).mp h).2 i hi
+    have h2 := this.2
+    change reducedAt (colEntries comps.length (fun i => min (i + 1) (comps.length - 1)) fun i => rs.getD i 0) _ _ ≠ 0 at h2
+    rw [reducedAt_colEntries] at h2
+    simpa [hi] using h2
+  · intro h
+    exact isSequential_colEntries comps.length _ h _ (by
+      show isE0 (1 :: List.replicate (comps.length - 1) (0 : F)) = true
+      simp [isE0])
+
+example : isSequential 2 (reducedAt (seqResolved ["a", "b"] [(1 : ℚ), 2]).es) (seqResolved ["a", "b"] [(1 : ℚ), 2]).j = true
+    ∧ isSequential 2 (reducedAt (seqResolved ["a", "b"] [(1 : ℚ), 0]).es) (seqResolved ["a", "b"] [(1 : ℚ), 0]).j = false := by
+  constructor <;> decide +kernel
+
+/-- under the order hypothesis (`eig` lists the eigenvalues of the triangular `K` in diagonal order whenever
+it is consulted, i.e. when some rate is zero) the rates handed to `calculate_matrix` are the chain's -/
+theorem seq_rates_chain_order (ext : Ext ℝ) (comps : List String) (rs : List ℝ)
+    (hord : (∃ i < comps.length, rs.getD i 0 = 0) →
+      (ext.eig (fullAt (seqResolved comps rs).es)).1
+        = (List.range comps.length).map fun l => fullAt (seqResolved comps rs).es l l) :
+    (seqResolved comps rs).ratesOf ext = ratesSeq comps.length (seqResolved comps rs).es := by
+  show rates ext comps.length (seqResolved comps rs).es (seqResolved comps rs).j = _
+  by_cases hs : isSequential comps.length (reducedAt (seqResolved comps rs).es) (seqResolved comps rs).j = true
+  · simp only [rates, hs, if_true]
+  · have hz : ∃ i < comps.length, rs.getD i 0 = 0 := by
+      by_contra hcon
+      apply hs
+      rw [seq_closed_form_rates_iff]
+      intro i hi h0
+      exact hcon ⟨i, hi, h0⟩
+    simp only [rates, hs, Bool.false_eq_true, if_false, hord hz, ratesSeq, List.map_map, Function.comp_def]
+
+/-- **Sequential megacomplex, zero rates allowed.**  For pairwise distinct rates (so at most one zero) and
+under the order hypothesis the terms of `calculate_matrix` are `exp(K t) e₀`.  Without a zero rate the
+hypothesis is void and this is `seq_megacomplex_solves`. -/
+theorem seq_megacomplex_solves_partial (ext : Ext ℝ) (comps : List String) (rs : List ℝ) (hn : comps.Nodup)
+    (hl : rs.length = comps.length) (hpos : 0 < comps.length)
+    (hdist : ∀ a < comps.length, ∀ b < comps.length, rs.getD a 0 = rs.getD b 0 → a = b)
+    (hord : (∃ i < comps.length, rs.getD i 0 = 0) →
+      (ext.eig (fullAt (seqResolved comps rs).es)).1
+        = (List.range comps.length).map fun l => fullAt (seqResolved comps rs).es l l)
+    (t : ℝ) (c : ℕ) (hc : c < comps.length) :
+    evalTerm (concTerm ((seqResolved comps rs).ratesOf ext) ((seqResolved comps rs).aMatrixOf ext .seq) t c)
+      = (NormedSpace.exp (t • toMat comps.length (fullAt (seqResolved comps rs).es))
+          *ᵥ toVec comps.length (listFn (seqResolved comps rs).j)) ⟨c, hc⟩ := by
+  obtain ⟨_, hchain, hdiag, hj⟩ := seq_megacomplex_chain_any_rates comps rs hn hl hpos
+  rw [seq_rates_chain_order ext comps rs hord]
+  exact sequential_solves comps.length _ hchain (by
+    intro a ha b hb hab
+    rw [hdiag a ha, hdiag b hb, neg_inj] at hab
+    exact hdist a ha b hb hab) _ hj t c hc
+
+/-- the order hypothesis is satisfiable: `a →(1) b →(0)` with the eigenvalues in diagonal order -/
+example : (∃ i < 2, [(1 : ℝ), 0].getD i 0 = 0) ∧
+    ((⟨fun _ => ([-1, 0], fun _ _ => 0), fun _ _ _ => 0⟩ : Ext ℝ).eig (fullAt (seqResolved ["a", "b"] [(1 : ℝ), 0]).es)).1
+      = (List.range 2).map fun l => fullAt (seqResolved ["a", "b"] [(1 : ℝ), 0]).es l l := by
+  constructor
+  · exact ⟨1, by norm_num, by simp⟩
+  · norm_num [seqResolved, colEntries, fullAt, fullStep, List.range_succ]
+
+/-- a certified eigen-decomposition of `a →(1) b →(0)` that lists the eigenvalue `0` first -/
+def swapExt : Ext ℝ :=
+  ⟨fun _ => ([0, -1], fun i l => if l = 0 then (if i = 1 then 1 else 0) else (if i = 0 then 1 else if i = 1 then -1 else 0)),
+   fun _ _ _ => 1⟩
+
+/-- **Counter-example to the unconditional statement.**  `swapExt` is a certified eigen-decomposition of
+`K = [[−1,0],[1,0]]` (so the decay megacomplex with this `K` is right with it), but the sequential
+megacomplex `a →(1) b →(0)` pairs the rates `(0, 1)` with the chain-ordered A-matrix and reports
+`c_a(1) = 1` instead of `e^{−1}`.  The harness replays it on the real code with `scipy.linalg.eig`
+wrapped to return this order. -/
+theorem seq_megacomplex_solves_counterexample :
+    ExtCertified swapExt 2 (fullAt (seqResolved ["a", "b"] [(1 : ℝ), 0]).es) (seqResolved ["a", "b"] [(1 : ℝ), 0]).j
+    ∧ evalTerm (concTerm ((seqResolved ["a", "b"] [(1 : ℝ), 0]).ratesOf swapExt)
+        ((seqResolved ["a", "b"] [(1 : ℝ), 0]).aMatrixOf swapExt .seq) 1 0)
+      ≠ (NormedSpace.exp ((1 : ℝ) • toMat 2 (fullAt (seqResolved ["a", "b"] [(1 : ℝ), 0]).es))
+          *ᵥ toVec 2 (listFn (seqResolved ["a", "b"] [(1 : ℝ), 0]).j)) ⟨0, by norm_num⟩ := by
+  constructor
+  · refine ⟨rfl, ?_, ?_⟩
+    · intro i hi l hl
+      interval_cases i <;> interval_cases l <;>
+        norm_num [matMulAt, swapExt, seqResolved, colEntries, fullAt, fullStep, listFn, List.range_succ]
+    · intro i hi
+      interval_cases i <;> norm_num [mulVecAt, swapExt, seqResolved, listFn, List.range_succ]
+  · have hgood := seq_megacomplex_solves_partial ⟨fun _ => ([-1, 0], fun _ _ => 0), fun _ _ _ => 0⟩
+      ["a", "b"] [(1 : ℝ), 0] (by decide) rfl (by decide)
+      (by intro a ha b hb; simp only [List.length_cons, List.length_nil] at ha hb
+          interval_cases a <;> interval_cases b <;> norm_num)
+      (by intro _; norm_num [seqResolved, colEntries, fullAt, fullStep, List.range_succ]) 1 0 (by decide)
+    have hns : isSequential 2 (reducedAt (seqResolved ["a", "b"] [(1 : ℝ), 0]).es)
+        (seqResolved ["a", "b"] [(1 : ℝ), 0]).j = false := by
+      rw [Bool.eq_false_iff]
+      intro h
+      exact (seq_closed_form_rates_iff ["a", "b"] [(1 : ℝ), 0]).mp h 1 (by decide) (by simp)
+    have hr1 : (seqResolved ["a", "b"] [(1 : ℝ), 0]).ratesOf swapExt = [-0, - -1] := by
+      show rates swapExt 2 _ _ = _
+      simp only [rates, hns, Bool.false_eq_true, if_false, swapExt, List.map_cons, List.map_nil]
+    simp only [List.length_cons, List.length_nil] at hgood
+    rw [← hgood, hr1]
+    have hr2 : (seqResolved ["a", "b"] [(1 : ℝ), 0]).ratesOf
+        (⟨fun _ => ([-1, 0], fun _ _ => 0), fun _ _ _ => 0⟩ : Ext ℝ) = [- -1, -0] := by
+      show rates _ 2 _ _ = _
+      simp only [rates, hns, Bool.false_eq_true, if_false, List.map_cons, List.map_nil]
+    rw [hr2, evalTerm_concTerm, evalTerm_concTerm]
+    simp only [Parts.aMatrixOf, aSeq, List.length_cons, List.length_nil, Finset.sum_range_succ,
+      Finset.sum_range_zero, aSeqAt_zero_col, listFn, List.getD_cons_zero, List.getD_cons_succ]
+    norm_num
+    exact fun h => absurd ((Real.exp_eq_one_iff (-1)).mp h.symm) (by norm_num)
+
+/-- **Consistency condition between `rate_*` and `a_matrix_*`.**  For pairwise distinct rates of which
+only the last may be zero: every row `l` of the A-matrix is an eigenvector of `K` for the eigenvalue
+`−rate_l` (the ODE certificate the harness checks on the real code) **iff** the reported rates are the
+chain's rates in chain order. -/
+theorem seq_rates_match_a_matrix_iff (ext : Ext ℝ) (comps : List String) (rs : List ℝ) (hn : comps.Nodup)
+    (hl : rs.length = comps.length) (hpos : 0 < comps.length)
+    (hdist : ∀ a < comps.length, ∀ b < comps.length, rs.getD a 0 = rs.getD b 0 → a = b)
+    (hnz : ∀ i, i + 1 < comps.length → rs.getD i 0 ≠ 0)
+    (hlen : ((seqResolved comps rs).ratesOf ext).length = comps.length) :
+    (∀ l < comps.length, ∀ c < comps.length,
+        matMulAt comps.length (fullAt (seqResolved comps rs).es)
+          (fun c l => (seqResolved comps rs).aMatrixOf ext .seq l c) c l
+        = (seqResolved comps rs).aMatrixOf ext .seq l c * (- listFn ((seqResolved comps rs).ratesOf ext) l))
+    ↔ (seqResolved comps rs).ratesOf ext = rs := by
+  obtain ⟨_, hchain, hdiag, _⟩ := seq_megacomplex_chain_any_rates comps rs hn hl hpos
+  have hinj : ∀ a < comps.length, ∀ b < comps.length,
+      fullAt (seqResolved comps rs).es a a = fullAt (seqResolved comps rs).es b b → a = b := by
+    intro a ha b hb hab
+    rw [hdiag a ha, hdiag b hb, neg_inj] at hab
+    exact hdist a ha b hb hab
+  have heig := sequential_eigen comps.length (fullAt (seqResolved comps rs).es) hchain hinj
+  have hA : (seqResolved comps rs).aMatrixOf ext .seq
+      = aSeqAt (fun m => fullAt (seqResolved comps rs).es m m) := rfl
+  rw [hA]
+  constructor
+  · intro h
+    apply List.ext_getElem (by rw [hlen, hl])
+    intro l h1 h2
+    have hlt : l < comps.length := by rw [← hl]; exact h2
+    have h3 := h l hlt l hlt
+    rw [heig l hlt l hlt] at h3
+    have hne : aSeqAt (fun m => fullAt (seqResolved comps rs).es m m) l l ≠ 0 := by
+      apply aSeqAt_diag_ne_zero
+      · intro m hm
+        show fullAt (seqResolved comps rs).es m m ≠ 0
+        rw [hdiag m (by omega), neg_ne_zero]
+        exact hnz m (by omega)
+      · intro m hm hcon
+        have := hinj m (by omega) l hlt hcon
+        omega
+    have h4 := mul_left_cancel₀ hne h3
+    rw [hdiag l hlt, neg_inj] at h4
+    have h5 : listFn ((seqResolved comps rs).ratesOf ext) l = ((seqResolved comps rs).ratesOf ext)[l] := by
+      simp [listFn, List.getD_eq_getElem?_getD, h1]
+    have h6 : rs.getD l 0 = rs[l] := by simp [List.getD_eq_getElem?_getD, h2]
+    rw [← h5, ← h6, h4]
+  · intro h l hlt c hc
+    rw [heig c hc l hlt, h, hdiag l hlt]
+    rfl
+
+/-- with the eigenvalues in diagonal order the reported rates are the chain's; with `swapExt` they are not -/
+example : (seqResolved ["a", "b"] [(1 : ℝ), 0]).ratesOf (⟨fun _ => ([-1, 0], fun _ _ => 0), fun _ _ _ => 0⟩ : Ext ℝ) = [1, 0]
+    ∧ (seqResolved ["a", "b"] [(1 : ℝ), 0]).ratesOf swapExt ≠ [1, 0] := by
+  have hns : isSequential 2 (reducedAt (seqResolved ["a", "b"] [(1 : ℝ), 0]).es)
+      (seqResolved ["a", "b"] [(1 : ℝ), 0]).j = false := by
+    rw [Bool.eq_false_iff]
+    intro h
+    exact (seq_closed_form_rates_iff ["a", "b"] [(1 : ℝ), 0]).mp h 1 (by decide) (by simp)
+  constructor
+  · show rates _ 2 _ _ = _
+    simp [rates, hns]
+  · show rates swapExt 2 _ _ ≠ _
+    simp [rates, hns, swapExt]
+/-- why only the *last* rate may vanish in `seq_rates_match_a_matrix_iff`: after a zero rate in the middle
+the later rows of the A-matrix are zero (those compartments are never populated), so they constrain nothing -/
+example : ∀ c < 4, aSeqAt (listFn [(-1 : ℚ), 0, -2, -3]) 2 c = 0 ∧ aSeqAt (listFn [(-1 : ℚ), 0, -2, -3]) 3 c = 0 := by
+  decide +kernel
+
+/-- **the closed form divides by zero exactly when two rates coincide** (the doubles are then inf / nan;
+the property's domain — pairwise distinct eigenvalues — excludes it) -/
+theorem closed_form_degenerate_iff {F : Type} [Field F] [DecidableEq F] (n : ℕ) (r : ℕ → F) :
+    aSeqDegenerate n r = true ↔ ∃ a b, a < b ∧ b < n ∧ r a = r b := by
+  simp only [aSeqDegenerate, List.any_eq_true, List.mem_range, Bool.and_eq_true, ne_eq,
+    decide_eq_true_eq, List.prod_eq_zero_iff, List.mem_map, List.mem_filter, decide_not, Bool.not_eq_eq_eq_not,
+    Bool.not_true, decide_eq_false_iff_not]
+  constructor
+  · rintro ⟨j, hj, _, i, hi, m, ⟨hm, hmi⟩, h0⟩
+    have heq : r m = r i := sub_eq_zero.mp h0
+    rcases Nat.lt_or_gt_of_ne hmi with hlt | hgt
+    · exact ⟨m, i, hlt, by omega, heq⟩
+    · exact ⟨i, m, hgt, by omega, heq.symm⟩
+  · rintro ⟨a, b, hab, hb, heq⟩
+    exact ⟨b, hb, by omega, a, by omega, b, ⟨by omega, by omega⟩, sub_eq_zero.mpr heq.symm⟩
+
+example : aSeqDegenerate 3 (listFn [(-1 : ℚ), -2, -1]) = true ∧ aSeqDegenerate 3 (listFn [(-1 : ℚ), -2, 0]) = false := by
+  constructor <;> decide +kernel
+
+/-! ## several decay megacomplexes in one dataset model -/
+
+/-- **`all_species`** (`finalize_data`) lists every compartment of every decay megacomplex exactly once -/
+theorem allSpecies_spec (compss : List (List String)) :
+    (allSpecies compss).Nodup ∧ ∀ y, y ∈ allSpecies compss ↔ ∃ cs ∈ compss, y ∈ cs := by
+  refine ⟨nodup_allSpecies_foldl compss [] List.nodup_nil, fun y => ?_⟩
+  simp [allSpecies, mem_allSpecies_foldl]
+
+example : allSpecies [["s2", "s10"], ["s1", "s2"]] = ["s2", "s10", "s1"] := by decide
+
+private theorem das_multi_reconstructs_aux (all : List String) (hall : all.Nodup) (ms : List (Mega ℝ))
+    (sasAll : ℕ → ℕ → ℝ) (g : ℕ) (t : ℝ)
+    (hnd : ∀ m ∈ ms, m.comps.Nodup) (hsub : ∀ m ∈ ms, ∀ c ∈ m.comps, c ∈ all) :
+    (ms.map fun m => ∑ l ∈ Finset.range m.rs.length,
+        dasSel all sasAll m g l * Real.exp ((- listFn m.rs l) * t)).sum
+    = ∑ s ∈ Finset.range all.length, sasAll g s * evalTerm (combinedTerm ms t (all.getD s "")) := by
+  induction ms with
+  | nil => simp [combinedTerm, evalTerm_nil]
+  | cons m ms ih =>
+    rw [List.map_cons, List.sum_cons, ih (fun m' hm' => hnd m' (List.mem_cons_of_mem _ hm'))
+      (fun m' hm' => hsub m' (List.mem_cons_of_mem _ hm'))]
+    have hct : ∀ s, evalTerm (combinedTerm (m :: ms) t s)
+        = (if m.comps.contains s then evalTerm (concTerm m.rs m.A t (m.comps.idxOf s)) else 0)
+          + evalTerm (combinedTerm ms t s) := by
+      intro s
+      simp only [combinedTerm, List.flatMap_cons, evalTerm_append]
+      split <;> simp [evalTerm_nil]
+    simp only [hct, mul_add, Finset.sum_add_distrib]
+    congr 1
+    show ∑ l ∈ Finset.range m.rs.length,
+        dasAt m.comps.length (selCols all sasAll m.comps) m.A g l * Real.exp ((- listFn m.rs l) * t) = _
+    rw [das_reconstructs]
+    exact sum_selCols_reindex all m.comps hall (hnd m List.mem_cons_self) (hsub m List.mem_cons_self)
+      (fun s => sasAll g s) (fun c => evalTerm (concTerm m.rs m.A t c))
+
+/-- **DAS of several decay megacomplexes reproduce the data model.**  With the species-associated table
+labelled by `all_species` (any order — the compartments of a megacomplex are *selected by label*),
+`DAS_m = SAS[:, species_m] × A_mᵀ` and the combined matrix column of a species being the sum of the
+columns of all megacomplexes that have it:
+`Σ_m Σ_l DAS_m[g,l]·e^{−rate_{m,l} t} = Σ_s SAS[g,s]·c_s(t)`. -/
+theorem das_multi_reconstructs (ms : List (Mega ℝ)) (sasAll : ℕ → ℕ → ℝ) (g : ℕ) (t : ℝ)
+    (hnd : ∀ m ∈ ms, m.comps.Nodup) :
+    (ms.map fun m => ∑ l ∈ Finset.range m.rs.length,
+        dasSel (allSpecies (ms.map fun m => m.comps)) sasAll m g l * Real.exp ((- listFn m.rs l) * t)).sum
+    = ∑ s ∈ Finset.range (allSpecies (ms.map fun m => m.comps)).length,
+        sasAll g s * evalTerm (combinedTerm ms t ((allSpecies (ms.map fun m => m.comps)).getD s "")) := by
+  obtain ⟨hall, hmem⟩ := allSpecies_spec (ms.map fun m => m.comps)
+  apply das_multi_reconstructs_aux _ hall ms sasAll g t hnd
+  intro m hm c hc
+  exact (hmem c).mpr ⟨m.comps, List.mem_map.mpr ⟨m, hm, rfl⟩, hc⟩
+
+/-- label-based selection on a non-lexicographic species order: megacomplex `[s1, s2]` inside
+`all_species = [s2, s10, s1]` reads columns 2 and 0 -/
+example : ["s1", "s2"].Nodup ∧
+    dasSel ["s2", "s10", "s1"] (fun _ s => if s = 0 then (3 : ℚ) else if s = 1 then 100 else 5)
+      ⟨["s1", "s2"], [], fun l c => if l = c then 1 else 2⟩ 0 1 = 5 * 2 + 3 * 1 := by
+  constructor
+  · decide
+  · decide +kernel
+
+/-- **normalisation over the whole item**: a compartment that takes part in the normalisation gets its
+parameter divided by the sum over *all* participating compartments of the initial-concentration item —
+also those that belong to another megacomplex of the dataset (cf. `normalized_excluded_unchanged`,
+`normalized_sum_one`) -/
+theorem normalized_included_entry {F : Type} [Field F] [DecidableEq F] (ic : InitConc F)
+    (v : List F) (h : normalized ic = .ok v) (k : ℕ) (hk : k < ic.comps.length)
+    (hin : ic.excl.contains ic.comps[k] = false) :
+    v[k]? = ic.params[k]?.map
+      (fun p => p / inclSum ic.params (ic.comps.map fun c => !ic.excl.contains c)) := by
+  unfold normalized at h
+  simp only at h
+  split_ifs at h with h1 h2
+  have hlen : ic.comps.length = ic.params.length := by simpa using h1
+  have hv := (Except.ok.injEq _ _ ▸ h : _ = v)
+  rw [← hv]
+  have hkp : k < ic.params.length := hlen ▸ hk
+  rw [getElem?_map_zip _ _ _ k hkp (by simpa using hk), List.getElem?_eq_getElem hkp]
+  have hnm : ic.comps[k] ∉ ic.excl := by simpa using hin
+  simp [hnm, inclSum]
+
+example : normalized (⟨["s2", "s10", "s1"], [(1 : ℚ), 5, 3], ["s10"]⟩ : InitConc ℚ) = .ok [1/4, 5, 3/4] := by
+  decide +kernel
+/-- two megacomplexes sharing the item `[s2: 1, s10: 5 (excluded), s1: 3]`: each picks its compartments
+from the same normalised vector -/
+example : decayJ (⟨["s2", "s10", "s1"], [(1 : ℚ), 5, 3], ["s10"]⟩ : InitConc ℚ) [(("s1", "s1"), 1)] true = .ok [3/4]
+    ∧ decayJ (⟨["s2", "s10", "s1"], [(1 : ℚ), 5, 3], ["s10"]⟩ : InitConc ℚ) [(("s10", "s2"), 1), (("s10", "s10"), 2)] true
+      = .ok [1/4, 5] := by
+  constructor <;> decide +kernel
 
 end Glotaran.C04
